@@ -44,6 +44,12 @@ type c03Env struct {
 	// INPUT context
 	reach     []*c03Fn
 	csiParams *types.Var
+	keys      *c03KeyEnv
+	defCache  map[*FG]map[types.Object]ast.Expr
+
+	callerCache map[*types.Func]*c03CallSite
+	callerKnown map[*types.Func]bool
+	lenRuns     map[*FG]*c03Len
 }
 
 type c03Fn struct {
@@ -74,15 +80,18 @@ func runC03(c *Ctx) {
 	c.Assume = append(c.Assume,
 		"dynamic calls (console methods, function values) made from the input goroutine do not send on the reply channels",
 		"the parser delivers to handleSequence only values it built itself (C03.h checks the sole call site)")
-	c.expect("C03.a", 50)
-	c.expect("C03.h", 5)
-	c.expect("C03.b", 9)
-	c.expect("C03.c", 13)
-	c.expect("C03.d", 7)
-	c.expect("C03.e", 7)
-	c.expect("C03.f", 21)
-	c.expect("C03.g", 18)
-	c.expect("C03.i", 4)
+	// Minima state what must exist semantically (every individually required table entry / site is reported as
+	// violated when missing); they are deliberately far below today's counts so that merging guards, naming
+	// sub-expressions or extracting helpers cannot make a rule "vacuous".
+	c.expect("C03.a", 10)
+	c.expect("C03.h", 2)
+	c.expect("C03.b", 3)
+	c.expect("C03.c", 8)
+	c.expect("C03.d", 3)
+	c.expect("C03.e", 5)
+	c.expect("C03.f", 12)
+	c.expect("C03.g", 10)
+	c.expect("C03.i", 3)
 
 	x := &c03Env{c: c}
 	x.pk = c.P.Pkg("vaxis")
@@ -203,6 +212,7 @@ func (x *c03Env) ruleA() {
 	}
 	sort.Strings(names)
 	anchors := map[string]bool{"vaxis.(*Vaxis).handleSequence": false, "vaxis.parseMouseEvent": false, "vaxis.decodeKey": false}
+	set := map[*types.Func]*FuncInfo{}
 	for _, n := range names {
 		fi := c.P.Func(n)
 		if fi == nil || fi.Pkg != x.pk || fi.Decl.Body == nil {
@@ -211,10 +221,115 @@ func (x *c03Env) ruleA() {
 		if _, ok := anchors[n]; ok {
 			anchors[n] = true
 		}
+		set[fi.Obj] = fi
+	}
+	// references to each function of the set (calls and function values) in the package
+	refs := map[*types.Func]int{}
+	for id, o := range x.info.Uses {
+		if fn, ok := o.(*types.Func); ok && set[fn] != nil && id != nil {
+			refs[fn]++
+		}
+	}
+	callers := map[*types.Func]map[*types.Func]bool{} // callee -> callers inside the set
+	for fn, fi := range set {
+		ast.Inspect(fi.Decl.Body, func(n ast.Node) bool {
+			if call, ok := n.(*ast.CallExpr); ok {
+				if cal := calleeOf(x.info, call); cal != nil && set[cal] != nil && cal != fn {
+					if callers[cal] == nil {
+						callers[cal] = map[*types.Func]bool{}
+					}
+					callers[cal][fn] = true
+				}
+			}
+			return true
+		})
+	}
+	// facts handed to the parameters of a callee: join over all of its call sites, provided every
+	// reference to the callee is a call from an analysed function
+	sites := map[*types.Func][]c03St{}
+	done := map[*types.Func]bool{}
+	runOne := func(fi *FuncInfo, withEntry bool) {
 		a := newC03Len(c, fi.Pkg, fi.Name, fi.Decl.Body, c.P.Graph(fi), x.csiParams)
 		a.wantIndex = true
 		a.ctxOf = x.ctxOf(fi.Pkg)
+		if withEntry && fi.Obj != x.handle.Obj && len(sites[fi.Obj]) > 0 && len(sites[fi.Obj]) == refs[fi.Obj] {
+			e := c03Bot()
+			for _, st := range sites[fi.Obj] {
+				e = c03Join(e, st, false)
+			}
+			a.entry = &e
+		}
+		a.onCall = func(call *ast.CallExpr, st c03St) {
+			cal := calleeOf(x.info, call)
+			cfi := set[cal]
+			if cal == nil || cfi == nil {
+				return
+			}
+			out := c03NewSt()
+			if st.bot {
+				out = c03Bot()
+			} else {
+				var params []types.Object
+				for _, f := range cfi.Decl.Type.Params.List {
+					for _, nm := range f.Names {
+						params = append(params, x.info.Defs[nm])
+					}
+				}
+				sig, _ := cal.Type().(*types.Signature)
+				if sig != nil && !sig.Variadic() && len(params) == len(call.Args) {
+					for i, arg := range call.Args {
+						argKey, ok := a.pathKey(arg)
+						if !ok || params[i] == nil {
+							continue
+						}
+						pid := fmt.Sprintf("%p", params[i])
+						for k, v := range st.m {
+							if k == argKey || strings.HasPrefix(k, argKey+".") || strings.HasPrefix(k, argKey+"[") {
+								out.m[pid+k[len(argKey):]] = v
+							}
+						}
+					}
+				}
+			}
+			sites[cal] = append(sites[cal], out)
+		}
 		a.run()
+		done[fi.Obj] = true
+	}
+	for len(done) < len(set) {
+		progressed := false
+		var ready []*FuncInfo
+		for fn, fi := range set {
+			if done[fn] {
+				continue
+			}
+			ok := true
+			for cl := range callers[fn] {
+				if !done[cl] {
+					ok = false
+				}
+			}
+			if ok {
+				ready = append(ready, fi)
+			}
+		}
+		sort.Slice(ready, func(i, j int) bool { return ready[i].Name < ready[j].Name })
+		for _, fi := range ready {
+			runOne(fi, true)
+			progressed = true
+		}
+		if !progressed { // recursion among the helpers: no entry facts
+			var rest []*FuncInfo
+			for fn, fi := range set {
+				if !done[fn] {
+					rest = append(rest, fi)
+				}
+			}
+			sort.Slice(rest, func(i, j int) bool { return rest[i].Name < rest[j].Name })
+			for _, fi := range rest {
+				runOne(fi, false)
+			}
+		}
 	}
 	for n, seen := range anchors {
 		if !seen {
